@@ -212,7 +212,7 @@ pub fn run(ctx: &Ctx, ev: &mut Ev) {
 fn miri(ctx: &Ctx, ev: &mut Ev, drv: &mut Driver) {
     let mut r = ctx.rng(66);
     let th = ctx.thorough();
-    for _ in 0..(if th { 72 } else { 10 }) {
+    for _ in 0..(if th { 40 } else { 10 }) {
         let enc = ALL[r.below(40)];
         let stream = random_stream(&mut r, enc, 1); let stream = &stream[..stream.len().min(48)];
         let sink = SINKS[r.below(4)]; let cuts = random_cuts(&mut r, stream.len()); let caps = random_caps(&mut r, dec_min_cap(sink), false);
@@ -220,7 +220,7 @@ fn miri(ctx: &Ctx, ev: &mut Ev, drv: &mut Driver) {
         ev.case(); let out = drv.run_dec(&case, ev); judge_dec(ev, &case, &out); ev.nontrivial_hash(case.hash());
         ev.sample(|| format!("{} -> {} calls", case.describe(), out.calls.len()));
     }
-    for _ in 0..(if th { 48 } else { 6 }) {
+    for _ in 0..(if th { 28 } else { 6 }) {
         let enc = ALL[r.below(40)]; let src16 = r.chance(2);
         let t = random_text(&mut r, 1, src16); let t = &t[..t.len().min(40)];
         if t.windows(2).any(|w| (0xD800..0xDC00).contains(&w[0]) && (0xDC00..0xE000).contains(&w[1])) { continue; }
@@ -228,7 +228,7 @@ fn miri(ctx: &Ctx, ev: &mut Ev, drv: &mut Driver) {
         let case = EncCase { enc, src16, vec_sink: !src16 && r.chance(3), repl, atoms: t, cuts: &cuts[..cuts.len().min(3)], last_sep: r.chance(2), caps: &caps, fill: 0xA5, src_align: r.below(16), dst_align: r.below(16) };
         ev.case(); let out = drv.run_enc(&case, ev); judge_enc(ev, &case, &out); ev.nontrivial_hash(case.hash());
     }
-    for i in 0..(if th { 200 } else { 24 }) {
+    for i in 0..(if th { 150 } else { 24 }) {
         let f = ALL_MEM[(i + ctx.shard * 7) % ALL_MEM.len()];
         let src = gen_src(&mut r, f.src_kind(), 2);
         let src = Src { bytes: src.bytes[..src.bytes.len().min(70)].to_vec(), units: src.units[..src.units.len().min(70)].to_vec() };
@@ -238,7 +238,7 @@ fn miri(ctx: &Ctx, ev: &mut Ev, drv: &mut Driver) {
         ev.nontrivial_hash(H::new().s(f.name()).b(&src.bytes).u16s(&src.units).u(dl as u64).get());
     }
     let toks = crate::alpha::utf8_tokens();
-    for _ in 0..(if th { 60 } else { 8 }) {
+    for _ in 0..(if th { 40 } else { 8 }) {
         let mut bytes = vec![]; for _ in 0..2 + r.below(2) { bytes.extend_from_slice(toks[r.below(toks.len())]); }
         let src = Src { bytes, units: vec![] };
         for f in [Utf8ToUtf16, Utf8ToUtf16NoRepl] { let dl = f.sufficient(src.bytes.len()); check_mem(drv, ev, f, &src, dl, 0xA5, r.below(16), r.below(16), 0); }
